@@ -1,4 +1,5 @@
 import LyModel.Diff.Lemmas13Merge
+import LyModel.Diff.LemmasRevLit
 /-!
 # C13 — the 4 × 4 operation table of `lyd_diff_merge_*`, cell by cell, against the composition of the two applications
 
@@ -281,15 +282,39 @@ theorem merge_cell_apply {S : Schema} {fx : Fixes} (K : KeyOrder S) {o : MergeOp
         simp only [hred, ↓reduceIte, Option.some.injEq] at hcell ⊢
         exact ⟨L, ha1, ha2, rfl, hfin L hgL (fun _ _ _ => rfl) hcell⟩
 
+/-! ## computed diffs satisfy the hypotheses of the tree-level law -/
+
+/-- The two diffs `lyd_diff_siblings` computes for well-formed `A`, `B`, `C` chain exactly: `D1 = diff(A, B)` is an exact diff
+for `A` (Props/C13 `diff_exact`), applying it gives a good tree `B'` with the observation of `B`, and `D2 = diff(B, C)` is an
+exact diff for that `B'` (exactness does not look at what `LYD_NEW` / metadata / container flags: `exactDiff_congr_norm`).
+These are the hypotheses under which `merge_apply_partial` (OPEN, below) is stated. -/
+theorem diff_chain_exact (S : Schema) (fx : Fixes) (A B C : List DNode) (hA : wfForest S A = true) (hB : wfForest S B = true)
+    (hC : wfForest S C = true) (hk : KeysDistinguished S (A ++ B)) :
+    exactDiff S A (diff S true A B) = true ∧
+    ∃ B', apply S A (diff S true A B) fx = .ok B' ∧ goodT S B' = true ∧ dataEqL true B' B = true ∧
+      exactDiff S B' (diff S true B C) = true := by
+  obtain ⟨B', h1, h2, h3, h4⟩ := Diff.diff_chain_exact S fx A B C hA hB hC hk
+  exact ⟨exactDiff_diff S A B hA hB, B', h1, h2, (dataEqL_iff_norm B' B).mpr h3, h4⟩
+
 -- OPEN: `merge_apply_partial` — for good trees and exact diffs `D1` (for `A`, leading to `B`) and `D2` (for `B`, leading to `C`):
---   ∃ M C', mergeDiff o S D1 D2 = .ok M ∧ apply S A M fx = .ok C' ∧ dataEqL true C' C = true
---   (under `o.defaults = true → Generated.Diff13.mergeDfltNeedsDeletedDflt = true`), and `merge_cancel` at tree level
---   (`mergeDiff o S D (reverse D) = .ok []`).  Proved here: every leaf cell (`merge_cell_*`, `merge_cancel_leaf`), the link to
---   `applyNode` (`merge_cell_apply`), the unreachability of the rejected cells, and the agreement of the table with the source
---   (Props/C13.lean).  Not proved: the recursion of `mergeR` through inner nodes (created / deleted subtrees with inherited
---   operations, `placeBack`, the order of the merged siblings).  Evidence instead: `merge3` agrees with lyd_diff_merge_all token
---   for token, and the law holds on the implementation for every generated triple outside the F18 cells, including all 7 844
---   option × triple combinations of the exhaustive tiny state spaces (tools/checks/c13.py).
+--   ∃ M C', mergeDiff o S D1 D2 = .ok M ∧ apply S A M fx = .ok C' ∧ dataEqL true C' C = true,
+--   and `merge_cancel` at tree level (`mergeDiff o S D (reverse D) = .ok []`).
+--   Hypotheses the tree statement needs, cell by cell (read off the leaf-cell theorems above): (delete, create) —
+--   `o.defaults = true → Generated.Diff13.mergeDfltNeedsDeletedDflt = true` (finding F18(b)); (none, replace) — the value the
+--   second diff sets is not default-flagged (`hnd` of `merge_cell_none_replace`: true for validated data, where a leaf that carries
+--   the flag has its one schema default value; NOT implied by `goodT` / `wfForest`, which allow the flag on any value — over those
+--   trees the statement needs this as an extra hypothesis on `C`); all other accepted cells: none.  The six rejected cells are
+--   unreachable (`merge_rejected_unreachable`).  `KeyOrder S` (needed by `merge_cell_apply`) restricts all of this to schemas
+--   without keyed lists (Props/C13 `keyOrder_no_keyed_list`).
+--   Proved: every leaf cell (`merge_cell_*`, `merge_cancel_leaf`), the link to `applyNode` (`merge_cell_apply`), the
+--   unreachability of the rejected cells, the agreement of the table with the source (Props/C13.lean), and that computed diffs
+--   meet the hypotheses (`diff_chain_exact`).  Not proved: the recursion of `mergeR` through the sibling list and through inner
+--   nodes — (i) a forward specification of `apply` for exact diffs (the result as a function of the per-instance effects, so that
+--   the order of the diff nodes and `insertBySchema` / `placeBack` do not matter; `Lemmas13Rev.listRev` has it only implicitly),
+--   (ii) the cells for nodes whose operation is INHERITED (children of created / deleted subtrees: `mergeDelete` / `mergeCreate`
+--   make the operation of the children explicit first), (iii) leaf-list and container cells.  Evidence instead: `merge3` agrees
+--   with lyd_diff_merge_all token for token, and the law holds on the implementation for every generated triple outside the F18
+--   cells, including all 7 844 option × triple combinations of the exhaustive tiny state spaces (tools/checks/c13.py).
 
 /-! ### the hypotheses of the cell theorems are satisfiable and the effects are not trivial -/
 
